@@ -23,12 +23,18 @@ CLAIMS = {
  "C06": dict(level="fault_enumeration", technique="crash-point enumeration over the recorded storage write log of generated histories (every prefix / all prefixes inside multi-write operations), each image opened by the real code and compared with the reference model; restart walk differential",
    text="A generated history is run once recording the ordered write log of both databases; every prefix (quick: all prefixes strictly inside multi-write operations, others sampled; thorough: all) is a crash image on which ledger and state are opened by the real code and checked with the C04 / C01 / C02 oracles, and Walk(ledger tip) must reach the uninterrupted run's state.",
    note="Trusts LevelDB batch atomicity and that a crash loses a suffix of the write sequence; write granularity is the kvdb interface (puts, deletes, batches)."),
+ "C08": dict(level="exploration", technique="property-based generation of node-formatted blocks + deterministic enumeration of every single mutation of header / body / signature; differential against an independent merkle implementation",
+   text="Blocks formatted by a real ledger (0..9 transactions, with / without justify, failed-tx map, PoW bits, all ring keys) must verify; each of ~160 single mutations per block (every hashed header field with stale and recomputed id, body add / drop / dup / swap / replace / alter, signature and key variants) must be rejected by VerifyBlock - or, for a transaction altered under an unchanged txid, by the per-transaction id check; the merkle root is compared with an independent implementation for counts 1..33.",
+   note="Fields the id does not claim to cover (Height, MerkleTree inner nodes, InTrunk, NextHash, failed-tx keys, non-positive TargetBits) and consistent re-signing by another proposer are not required to be rejected; 0-transaction blocks are not asserted (real blocks always carry the award)."),
  "C09": dict(level="exploration", technique=T_MODEL + "; round-trip through the real Chain.PreExec -> client assembly -> Chain.SubmitTx; re-signed single mutations of the assembled transaction must be refused",
    text="Generated contract programs over all prior states are sent through the real pipeline (Chain.PreExec on live state, assembly exactly as a client does, SubmitTx); before the original is submitted every re-signed mutant whose rejection the statement demands (stale read, changed / added / dropped write, changed program, lowered limit, fee below gas, redirected or lowered contract transfer, changed call amount) must be refused without trace; committing the original changes exactly its write set and outputs (model comparison after every step); a failing program changes nothing.",
    note="As C01; contract-originated transfers only when the contract owns exactly one output (deterministic replay); adding an unused read or permuting the write set is not required to be rejected."),
  "C10": dict(level="exploration", technique="property-based testing (rapid) of operation sequences against an overlay-map model + round-trip through the verifier's replay (XMReaderFromRWSet)",
    text="Generated Get/Put/Del/Select/Transfer sequences on the real sandbox over generated backing states; every result is compared with an overlay-map model, the flushed read/write set with the statement's three rules, and the same calls are replayed over the read set alone (the verifier's situation) demanding identical results and write set.",
    note="The backing reader imitates xmodel.XModel (verified against the real one by a probe); nil end keys only where XModel and MemXModel agree; no writes while an iterator is open."),
+ "C11": dict(level="exploration", technique="exhaustive enumeration of (rule, signer list) pairs against a reference evaluator written from the statement + metamorphic relations (monotone, permutation / duplication invariant); model-based pipeline test on a real node",
+   text="Part 1: every ordered signer list of length <= 3 (thorough <= 4) over 11 URI shapes against thousands of rule points (threshold with weights, key sets, nested account, method rules) through the real IdentifyAccount / CheckContractMethodPerm, compared with a reference evaluator, plus monotonicity and permutation / duplication invariance on the code alone. Part 2: on a real node accounts are created through $acl, rules changed and account funds spent with generated signer sets while another rule is pending; a guarded transaction is accepted exactly when the reference evaluator is satisfied under the rule of the confirmed chain.",
+   note="Signer = last URI component (what verifySignatures verifies); empty key sets, URIs ending in an account, float-order dependent rule points and the XuperSign path are excluded."),
  "C13": dict(level="exploration", technique=T_MODEL + "; blocks produced by the real Miner.packBlock; graph-path oracle over the pool's dependency graph (all map orders); replica differential",
    text="Pools rich in dependency chains, read-only sharers followed by a writer, fee payers and timer tasks; every block produced by the real packBlock must verify, carry the right award, be executable in exactly its order on the parent state and replay on a replica to the producer's state. For all map-iteration orders the pool's dependency graph must contain a path for every pair the model orders; TopSortDFS is checked on generated graphs.",
    note="As C01; the award of produced blocks is never spent (GenerateAwardTx uses the wall clock); one known finding (timer transaction computed over pending state) excluded by shape."),
